@@ -100,4 +100,46 @@ theorem louvainLoop_fuel_nAgg {kernel : Nat → Nat → List Int × Bool} {nAgg 
         simp [he]
       exact ih (count + 1) k a' hkpos hcont (by omega) (by omega)
 
+/-- second clause of the kernel contract, true of `optimize_core` when `tol_aggregation ≥ 0` (C17,
+    `louvain_outer_terminates`: a round with `increase > 0` makes some node leave its singleton, whose label then
+    disappears): if the kernel returns pairwise distinct labels (no merge), then `increase ≤ tol_aggregation` -/
+def NoMergeStops (kernel : Nat → Nat → List Int × Bool) : Prop :=
+  ∀ count n, (unique (kernel count n).1).length = n → (kernel count n).2 = true
+
+theorem unique_length_le (l : List Int) : (unique l).length ≤ l.length :=
+  (List.subperm_of_subset (unique_nodup l) (fun _ hx => mem_unique.mp hx)).length_le
+
+/-- ★ under the two clauses of the kernel contract the loop of `Louvain.fit` stops by itself, whatever
+    `n_aggregations` is (the default `-1` included): every round that does not stop strictly decreases the number of
+    nodes, so as many rounds as there are nodes suffice -/
+theorem louvainLoop_fuel {kernel : Nat → Nat → List Int × Bool} {nAgg : Int} (hk : KernelLen kernel)
+    (hs : NoMergeStops kernel) :
+    ∀ (fuel count n : Nat) (a : List Nat), 0 < n → Contiguous a n → n ≤ fuel →
+      louvainLoop kernel nAgg fuel count n (ofLabels a n) ≠ .ok none := by
+  intro fuel
+  induction fuel with
+  | zero => intro count n a hn _ h; omega
+  | succ fuel ih =>
+    intro count n a hn ha hf
+    obtain ⟨a', k, hkpos, hkeq, hgm, hdot, hlen, hcont, hco⟩ :=
+      louvain_step hn (hk (count + 1) n) ha
+    unfold louvainLoop
+    simp only [hgm, hdot, bind, Except.bind, pure, Except.pure]
+    have hncol : (ofLabels (inverse (kernel (count + 1) n).1) k).nCol = k := rfl
+    rw [hncol]
+    split
+    · intro h; cases h
+    · rename_i hstop
+      have hflag : (kernel (count + 1) n).2 = false := by
+        cases hfl : (kernel (count + 1) n).2 with
+        | false => rfl
+        | true => exfalso; apply hstop; simp [hfl]
+      have hle : k ≤ n := by
+        rw [hkeq]; have := unique_length_le (kernel (count + 1) n).1; rw [hk (count + 1) n] at this; exact this
+      have hne : k ≠ n := by
+        intro he
+        have := hs (count + 1) n (by rw [← hkeq, he])
+        rw [hflag] at this; cases this
+      exact ih (count + 1) k a' hkpos hcont (by omega)
+
 end SkNet.Clustering
